@@ -123,7 +123,14 @@ func (c *FnCtx) step(frame *Frame, st *State, in ssa.Instruction) (forkFn, bool)
 	case *ssa.Defer:
 		st.defers = append(st.defers, deferred{frame.id, x})
 	case *ssa.Send:
-		c.note("channel send abstracted")
+		// ghost: sent(ch) counts the messages sent on a channel (blocking and buffering are not
+		// modelled: a send is treated as completing)
+		ch := c.val(st, x.Chan)
+		name := arrName("S", "sent", "", "Int")
+		arr := c.heapGet(st.heap, name)
+		st.assume("(>= " + sel(arr, ch.S) + " 0)")
+		c.heapSet(st, name, sto(arr, ch.S, "(+ "+sel(arr, ch.S)+" 1)"))
+		c.note("channel send: counted in ghost sent(ch); blocking not modelled")
 	case *ssa.Select:
 		c.note("select abstracted (nondeterministic choice)")
 		st.env[x] = c.freshVal(st, x.Type(), "select")
@@ -170,6 +177,12 @@ func retype(v Val, t types.Type) Val {
 func (c *FnCtx) doAlloc(st *State, x *ssa.Alloc) {
 	t := x.Type().(*types.Pointer).Elem()
 	r := c.allocRefT(st, "new."+x.Comment, t)
+	if !x.Heap {
+		if c.stackRefs == nil {
+			c.stackRefs = map[string]bool{}
+		}
+		c.stackRefs[r] = true
+	}
 	pv := scalar(x.Type(), r)
 	a := c.addrOfPointer(pv)
 	if kindOf(t) == KArray {
